@@ -10,13 +10,14 @@ subprocess.check_call(["git", "-C", "/repo", "worktree", "add", "-q", "--detach"
 try:
     for pid in ids:
         patch = os.path.join(ROOT, "seeded", pid, "patch.diff")
+        name, pid = pid, pid[:3]
         subprocess.check_call(["git", "-C", wt, "apply", patch])
         try:
             p = subprocess.run(["./check", pid], cwd=ROOT, stdout=subprocess.PIPE, stderr=subprocess.STDOUT, text=True,
                                env=dict(os.environ, VERIF_REPO=wt))
             lines = [l for l in p.stdout.splitlines() if l.startswith("VIOLATION") or l.startswith(pid + " ")]
             withinput = any(l.startswith("VIOLATION") and "no-failing-input-found" not in l for l in lines)
-            print(pid, "DETECTED" if p.returncode != 0 else "MISSED", "failing-input" if withinput else "", "|", lines[-2] if len(lines) > 1 else lines[-1:], flush=True)
+            print(name, "DETECTED" if p.returncode != 0 else "MISSED", "failing-input" if withinput else "", "|", lines[-2] if len(lines) > 1 else lines[-1:], flush=True)
         finally:
             subprocess.check_call(["git", "-C", wt, "checkout", "--", "."])
 finally:
